@@ -75,6 +75,51 @@ let sort_canon es =
 let mk_set bs es = if bs = "1" then BinarySearchable es else Unsorted es
 let set_list = function BinarySearchable l -> l | Unsorted l -> l
 
+(* ---- tree layer ---- *)
+(* memoised extracted BLAKE3 (same function, cached by input) *)
+let b3_tbl : (string, n list) Hashtbl.t = Hashtbl.create 100000
+let blake3_memo (bs : n list) : n list =
+  let b = Buffer.create 64 in
+  List.iter (fun x -> Buffer.add_char b (Char.chr (int_of_n x))) bs;
+  let k = Buffer.contents b in
+  match Hashtbl.find_opt b3_tbl k with
+  | Some r -> r
+  | None -> let r = blake3 bs in Hashtbl.add b3_tbl k r; r
+let cfg_w = whatsapp blake3_memo
+let cfg_e = experimental blake3_memo (List.map n_of_int [69;120;97;109;112;108;101;76;97;98;101;108])
+let cfg_of = function "w" -> cfg_w | _ -> cfg_e
+let cur_tree : (config * ((tree * n) * n)) ref = ref (cfg_w, azks_new)
+(* child_check of verify_nonmembership: the code as it is now (after fix F1) *)
+let child_check = ref true
+
+let next_bytes c = bytes_of_hex (next c)
+let next_velems c =
+  let k = int_of_string (next c) in
+  List.init k (fun _ -> let l = next_label c in let v = next_bytes c in { e_label = l; e_value = v })
+let rec ser_tree cfg is_root t =
+  match t with
+  | Leaf (l, v, e) -> Printf.sprintf "L %s %s %s " (fmt_label l) (hex_of_bytes v) (dec_of_n e)
+  | Node (l, le, mde, a, b) ->
+    let sub = function None -> "- " | Some c -> ser_tree cfg false c in
+    Printf.sprintf "%s %s %s %s %s %s%s" (if is_root then "R" else "I") (fmt_label l) (dec_of_n le) (dec_of_n mde)
+      (hex_of_bytes (hashval cfg true t)) (sub a) (sub b)
+let ser_mp p =
+  String.concat " " ([fmt_label p.mp_label; hex_of_bytes p.mp_hash_val; string_of_int (List.length p.mp_sibs)] @
+    List.map (fun sp -> Printf.sprintf "%s %s %s %d" (fmt_label sp.sp_label) (fmt_label sp.sp_sib_label) (hex_of_bytes sp.sp_sib_val) (if sp.sp_dir then 1 else 0)) p.mp_sibs)
+let ser_nmp p =
+  Printf.sprintf "%s %s %s %s %s %s %s" (fmt_label p.np_label) (fmt_label p.np_longest_prefix)
+    (fmt_label (fst p.np_child0)) (hex_of_bytes (snd p.np_child0)) (fmt_label (fst p.np_child1)) (hex_of_bytes (snd p.np_child1)) (ser_mp p.np_mp)
+let next_mp c =
+  let l = next_label c in let h = next_bytes c in let k = int_of_string (next c) in
+  let sibs = List.init k (fun _ -> let pl = next_label c in let sl = next_label c in let sv = next_bytes c in let d = next c in
+                           { sp_label = pl; sp_sib_label = sl; sp_sib_val = sv; sp_dir = (d = "1") }) in
+  { mp_label = l; mp_hash_val = h; mp_sibs = sibs }
+let next_nmp c =
+  let x = next_label c in let lp = next_label c in
+  let l0 = next_label c in let v0 = next_bytes c in let l1 = next_label c in let v1 = next_bytes c in
+  let mp = next_mp c in
+  { np_label = x; np_longest_prefix = lp; np_child0 = (l0, v0); np_child1 = (l1, v1); np_mp = mp }
+
 let answer (c : cur) : string =
   match next c with
   | "is_prefix" -> let a = next_label c in let b = next_label c in if is_prefix_of a b then "1" else "0"
@@ -102,9 +147,25 @@ let answer (c : cur) : string =
      | Some (p, f) -> fmt_nlist p ^ " " ^ fmt_nlist f)
   | "kf_K1" -> let e = n_of_dec (next c) in let n = n_of_dec (next c) in let m = n_of_dec (next c) in
     if k1_class e n m then "1" else "0"
+  | "ins" -> let cfg = cfg_of (next c) in let _mode = next c in let nb = int_of_string (next c) in
+    let rec go st i = if i = 0 then Some st else
+        let es = next_velems c in
+        (match batch_insert cfg.c_empty_label st es with None -> None | Some st' -> go st' (i - 1)) in
+    (match go azks_new nb with
+     | None -> "ERR"
+     | Some (((t, ep), num) as st) ->
+       cur_tree := (cfg, st);
+       String.trim (Printf.sprintf "%s %s %s %s" (hex_of_bytes (root_hash cfg true t)) (dec_of_n ep) (dec_of_n num) (ser_tree cfg true t)))
+  | "gmp" -> let x = next_label c in let (cfg, ((t, _), _)) = !cur_tree in ser_mp (get_membership_proof cfg t x)
+  | "gnmp" -> let x = next_label c in let (cfg, ((t, _), _)) = !cur_tree in ser_nmp (get_non_membership_proof cfg t x)
+  | "vmp" -> let cfg = cfg_of (next c) in let root = next_bytes c in let p = next_mp c in
+    if verify_membership cfg root p then "1" else "0"
+  | "vnmp" -> let cfg = cfg_of (next c) in let root = next_bytes c in let p = next_nmp c in
+    if verify_nonmembership_gen cfg !child_check root p then "1" else "0"
   | _ -> "?"
 
 let () =
+  if Array.length Sys.argv > 1 && Sys.argv.(1) = "--no-child-check" then child_check := false;
   try
     while true do
       let line = input_line stdin in
